@@ -151,12 +151,11 @@ fn check_value(st: &mut Stats, c: &Case, t: &Ty, x: f64) {
             let reading = serde_json::from_str::<f64>(&s).ok();
             st.evaluations += 1;
             match reading {
-                Some(r) => {
-                    if r.to_bits() != x.to_bits() && !(r == 0.0 && x == 0.0) {
-                        st.count("observed.serde_json_reads_text_1ulp_off(reference uses its own reading)");
-                    }
-                    let r_bits = if s.starts_with('-') || x != 0.0 { Some(r.to_bits()) } else { Some(r.to_bits()) };
-                    judge(st, c, "JSON", &s, model_accept(t, r), r_bits, guarded(|| (t.from_json)(&s)));
+                Some(_) => {
+                    // the JSON route must read the decimal text as the value it denotes (std's correctly rounded
+                    // parse), like the text route does: "the three routes agree on every input"
+                    let exact: f64 = s.parse().unwrap();
+                    judge(st, c, "JSON", &s, model_accept(t, exact), Some(exact.to_bits()), guarded(|| (t.from_json)(&s)));
                 }
                 None => judge(st, c, "JSON", &s, false, None, guarded(|| (t.from_json)(&s))),
             }
